@@ -1,1 +1,1 @@
-pub mod pipe; pub mod tasks; pub mod pb;
+pub mod ids; pub mod pb; pub mod pipe; pub mod tasks;
